@@ -1,9 +1,11 @@
 """C04 - a worker dying mid-task yields WorkerLostError for exactly its job."""
+from engines import realparts as rp
 from engines import simgen as g
 from engines.simprop import make_execute
 
 LEVEL = 'exploration'
-RULE = ('sim: E1 histories with jobs of all kinds on pools 1-4 (with/without '
+RULE = ('real: 1-3 tasks kill their own process (SIGKILL/SEGV/ABRT/BUS/FPE/TERM/HUP/QUIT or os._exit(n)) at a generated offset inside the task, lost timeout 0.3-1.0 s, 2-8 other jobs (and a map) in flight. ' 
+        'sim: E1 histories with jobs of all kinds on pools 1-4 (with/without '
         'maxtasksperchild), deaths of RUNNING/IDLE workers with any of 18 signals '
         'or exit codes 0-255, several concurrent victims, ticks and clock advances '
         'around the lost-worker timeout (0.5/2/10/30 s), deaths noticed before or '
@@ -17,7 +19,8 @@ ASSUMPTIONS = [
     '(imap part owner dies, death reaped before its ACK is consumed, faults '
     'after close)',
 ]
-SHARDS = {'quick': 4, 'thorough': 16}
+SHARDS = {'quick': 8, 'thorough': 16}
+WALL_LIMIT = {'quick': 1500, 'thorough': 6 * 3600}
 
 
 def sim_cases():
@@ -38,9 +41,11 @@ def _nontrivial(labels, sim):
 
 
 execute_sim = make_execute({'c04'}, _nontrivial, prop='C04')
-PARTS = {'sim': execute_sim}
-EXPLORE = {'sim': (sim_cases(), execute_sim)}
+PARTS = {'sim': execute_sim, 'real': rp.execute_c04}
+EXPLORE = {'sim': (sim_cases(), execute_sim), 'real': (rp.c04_cases(), rp.execute_c04)}
 
 
 def run(ctx):
-    ctx.explore('sim', sim_cases(), execute_sim, n=ctx.pick(500, 25000))
+    ctx.explore('sim', sim_cases(), execute_sim, n=ctx.pick(250, 25000))
+    ctx.explore('real', rp.c04_cases(), rp.execute_c04, n=ctx.pick(3, 40),
+                shrink_budget=6)
